@@ -182,9 +182,43 @@ _PROCESS_LOOP = LoopContract(lambda ctx: [("threshold-unchanged", ctx.interp.to_
                              variant=lambda ctx: z3.Length(cur_data(ctx.interp, ctx.ghost["buffer"])))
 
 
+import ast as _ast
+
+
+def _var_assigned_from_find(fn_node):
+    """the scan position: the local assigned from `<text>.find(">", ...)`"""
+    for n in _ast.walk(fn_node):
+        if isinstance(n, _ast.Assign) and len(n.targets) == 1 and isinstance(n.targets[0], _ast.Name) and isinstance(n.value, _ast.Call) \
+                and isinstance(n.value.func, _ast.Attribute) and n.value.func.attr == "find" and n.value.args \
+                and isinstance(n.value.args[0], _ast.Constant) and n.value.args[0].value == ">":
+            return n.targets[0].id
+    return None
+
+
+def _var_holding_the_data(fn_node):
+    """the local copy of the buffer content: assigned from `self.data`"""
+    for n in _ast.walk(fn_node):
+        if isinstance(n, _ast.Assign) and len(n.targets) == 1 and isinstance(n.targets[0], _ast.Name) and isinstance(n.value, _ast.Attribute) \
+                and n.value.attr == "data" and isinstance(n.value.value, _ast.Name) and n.value.value.id == "self":
+            return n.targets[0].id
+    return None
+
+
+def _var_start_offset(fn_node):
+    """the offset of the first known opener: the local initialised to None before the loop over the tags"""
+    for n in fn_node.body:
+        if isinstance(n, _ast.Assign) and len(n.targets) == 1 and isinstance(n.targets[0], _ast.Name) and isinstance(n.value, _ast.Constant) and n.value.value is None:
+            return n.targets[0].id
+    return None
+
+
+def _end_var(ctx):
+    return ctx.role("scan position", _var_assigned_from_find, "end")
+
+
 def _find_inv(ctx):
-    end = ctx.env.vars.get("end")
-    data = ctx.env.vars.get("data")
+    end = _end_var(ctx)
+    data = ctx.role("buffer content", _var_holding_the_data, "data")
     et = ctx.interp.to_term(end)
     dt = ctx.interp.to_term(data)
     return [("end-within-the-data", z3.And(is_int(et), get_i(et) >= 0, get_i(et) <= z3.Length(get_s(dt)))),
@@ -198,11 +232,11 @@ def _find_havoc(ctx):
 
 _FIND_LOOP = LoopContract(_find_inv, _find_havoc, props="C11,C02", label="scan",
                           allowed=lambda w: False,
-                          variant=lambda ctx: z3.Length(ctx.ghost["data0"]) - get_i(ctx.interp.to_term(ctx.env.vars["end"])))
+                          variant=lambda ctx: z3.Length(ctx.ghost["data0"]) - get_i(ctx.interp.to_term(_end_var(ctx))))
 
 
 def _tags_inv(ctx):
-    start = ctx.interp.to_term(ctx.env.vars.get("start"))
+    start = ctx.interp.to_term(ctx.role("first opener offset", _var_start_offset, "start"))
     data = ctx.ghost["data0"]
     return [("start-is-an-offset-into-the-data", z3.Or(is_none(start), z3.And(is_int(start), get_i(start) >= 0, get_i(start) <= z3.Length(data))))]
 
@@ -323,7 +357,7 @@ def grammar_body(body):
 def _find_inv_complete(ctx):
     out = _find_inv(ctx)
     body = ctx.ghost["body"]
-    et = ctx.interp.to_term(ctx.env.vars.get("end"))
+    et = ctx.interp.to_term(_end_var(ctx))
     out.append(("scan-has-not-passed-the-end-of-the-first-message", get_i(et) <= z3.Length(body) - 2))
     return out
 
@@ -383,7 +417,7 @@ def task_find_complete():
 def _tags_inv_exact(ctx):
     g = ctx.ghost
     out = _tags_inv(ctx)
-    start = ctx.interp.to_term(ctx.env.vars.get("start"))
+    start = ctx.interp.to_term(ctx.role("first opener offset", _var_start_offset, "start"))
     G, t, tags = g["gap_len"], g["opener_tag"], g["tags_list"]
     j = z3.Int("j")
     seen = z3.Exists([j], z3.And(j >= 0, j < ctx.i, z3.Select(tags.elt, j) == VStr(t)), patterns=[z3.Select(tags.elt, j)])
